@@ -39,6 +39,12 @@ C16_FlagsPositional ==
     Ln.call = "has" => /\ Len(Ln.flags) = Len(Ln.req)
                        /\ \A i \in DOMAIN Ln.req : Ln.flags[i] = (SingleOf(Ln.req[i]) # "MISSING")
 
+(* conformance with Bulk.tla (no concurrent packer here, so no retry pass): what the index holds is yielded first, then
+   the loose files, then the missing keys -- Bulk!PhaseOrder *)
+Rank(w) == CASE w = "packed" -> 1 [] w = "loose" -> 2 [] OTHER -> 3
+Conf_PhaseOrder == Ln.call \in {"meta", "streams"} =>
+    \A i, j \in DOMAIN Ln.bulk : i < j => Rank(Ln.bulk[i].w) <= Rank(Ln.bulk[j].w)
+
 (* maintenance calls under lowered thresholds leave the same store as under the default ones *)
 C16_SameOutcome == Ln.call = "maint" => Ln.same
 =============================================================================
